@@ -10,7 +10,7 @@ ALL = ["C%02d" % i for i in range(1, 21)]
 META = {
     "C01": dict(
         technique="stateful property-based testing (rapidcheck): generated query histories over 1-3 live worlds; differential oracle = twin world answering stand-alone requests, list reversal/duplication, reverse replay of the history; bitwise comparison",
-        text="Generated worlds (all feature types, deterministic models, operations) and histories of batched 2D/3D requests; every block must be bit-identical to the stand-alone answer of a twin world, the announced size must be returned, and re-issuing the history backwards must reproduce every answer. In-process crashes of the library are captured and replayed (natively, then under valgrind).",
+        text="Generated worlds (all feature types, deterministic models, operations) and histories of batched 2D/3D requests; every block must be bit-identical to the stand-alone answer of a twin world, the announced size must be returned, and re-issuing the history backwards must reproduce every answer. Every case runs in a forked child and the reference answers come from a pristine process forked before the first case (no state can leak between worlds unnoticed); a sanitizer stage repeats the histories with the ASan+UBSan build.",
         note="Random models excluded (C15). Trusted: the twin-world construction; rapidcheck's generators for reproducibility.",
         design="DESIGN.md section 4, C01"),
     "C02": dict(
@@ -31,7 +31,7 @@ META = {
     "C05": dict(
         technique="property-based testing (rapidcheck, one process per case): reference closed forms written from the parameter documentation (uniform, adiabatic, linear, Chapman, half-space erfc, converged plate-cooling Fourier series with a measured truncation allowance, Gaussian plume, slab/fault distance models, uniform grains/velocity)",
         text="Single-feature worlds with exactly one model under test, parameters over the documented domain incl. the 'negative means adiabatic/global' sentinels, model ranges wider/narrower/shifted against the feature range and add/subtract over the background; interior points by construction. The returned value must equal the documented expression (1e-10 .. 1e-8 relative); outside the model's own range the background must come back unchanged.",
-        note="Where the documentation is not specific (smooth composition shape, Euler convention, slab/fault sentinel depths) only the documented part is asserted. Ridge models: cartesian worlds with a ridge along x = const. Slab/fault distances from the planar construction validated by C06.",
+        note="Where the documentation is not specific (smooth composition shape, Euler convention, slab/fault sentinel depths) only the documented part is asserted. Ridge models: cartesian worlds with a ridge along x = const (2-4 points, constant or per-point spreading velocity) and spherical worlds with a ridge along the equator spanning up to 300 degrees written anywhere in [-360,360] (distance R|lat|, velocity linear in longitude). A sanitizer stage re-runs the generators with the ASan+UBSan build. Slab/fault distances from the planar construction validated by C06.",
         design="DESIGN.md section 4, C05"),
     "C06": dict(
         technique="property-based testing (rapidcheck, one process per case): independent planar reference construction (straight lines and circular arcs in the plane perpendicular to the trench) compared with World::distance_to_plane and with membership via the tag",
@@ -40,7 +40,7 @@ META = {
         design="DESIGN.md section 4, C06"),
     "C07": dict(
         technique="differential property-based testing (rapidcheck): the same world file built with and without the culling bounds (GWB_VERIF hook) must answer bit-identically; kd-tree guided surface lookup vs brute-force scan of the surface's own triangles",
-        text="Curved slabs/faults in both coordinate systems (high latitudes, next to +-180, deep starts, long shallow north-south slabs) probed at the rim of the region a member can occupy and near the slab tip; Objects::Surface objects built from generated node sets incl. spherical sets written beyond +-pi with queries normalised as callers do.",
+        text="Curved slabs/faults in both coordinate systems (high latitudes, next to +-180, deep starts, long shallow north-south slabs, trenches ending 1.5-4 degrees from a pole, poleward-dipping slabs that pass the pole, short slabs, last segments that thicken downwards) probed at the rim of the region a member can occupy and near the slab tip; Objects::Surface objects built from generated node sets incl. spherical sets written beyond +-pi with queries normalised as callers do; Surface::minimum/maximum (the pre-test bounds) must equal the smallest/largest listed value.",
         note="The hook replaces bounding box and length cut-off by infinite bounds at parse time; area-feature min/max pre-tests are covered through the surface lookup and by C11's bisection probe.",
         design="DESIGN.md section 4, C07"),
     "C10": dict(
@@ -60,22 +60,22 @@ META = {
         design="DESIGN.md section 4, C14"),
     "C17": dict(
         technique="property-based testing (rapidcheck) of the gwb-dat executable: generated world + data file, header-driven comparison of every printed token with the library's values formatted the same way; negative class of malformed rows",
-        text="Data files with dim 2/3, 0-5 compositions, grain sets, convert spherical, comma/space separated, option lines in any order, comments, numbers in four spellings. Header names must be the requested columns, each row must repeat the input tokens and list the library's values under those names; malformed rows must be reported.",
+        text="Data files with dim 2/3, 0-5 compositions, grain sets, convert spherical, comma/space separated, option lines in any order, comments, numbers in four spellings. Header names must be the requested columns, each row must repeat the input tokens and list the library's values under those names; malformed rows (too few/many columns, tokens that are not numbers or only start like one) and the documented-as-excluded combination of dim = 2 with 'convert spherical = true' (option lines in any order) must be reported, never answered with a complete table.",
         note="Two listed findings (3D header announces 'g'; 2D composition/grain columns shifted): the check classifies exactly those layouts and verifies everything else against them.",
         design="DESIGN.md section 4, C17"),
     "C18": dict(
         technique="property-based testing (rapidcheck) of the gwb-grid executable: generated world + grid file, VTU reader, reference lattice per grid type, library values at the lattice nodes, recomputation of the filtered / by-tag cell sets",
-        text="Cartesian and chunk grids in 2D/3D, annulus, sphere; bounds, cell counts, compositions, -j, --filtered/--by-tag. Well-formed mesh, node multiset equals the requested lattice, cell count, Depth, every node value equals the library's answer, filtered/by-tag files contain exactly the selected cells with unchanged node values.",
+        text="Cartesian and chunk grids in 2D/3D, annulus, sphere; bounds, cell counts, compositions, -j, --filtered/--by-tag, every vtu_output_format (ASCII, Base64Inline, Base64Appended, RawBinary, RawBinaryCompressed, absent) read by an independent VTK-XML reader (base64, appended offsets, zlib blocks). Well-formed mesh, node multiset equals the requested lattice, cell count, Depth, every node value equals the library's answer, filtered/by-tag files contain exactly the selected cells with unchanged node values.",
         note="ASCII output (6 digits): 2e-5 relative tolerance, boundary-ambiguous nodes skipped. Sphere grids: lattice not re-derived.",
         design="DESIGN.md section 4, C18"),
     "C20": dict(
         technique="property-based testing (rapidcheck, one process per case): envelope, monotonicity (paired probes) and boundary-value invariants on cooling models",
         text="Oceanic half-space / plate / constant-age / linear models with ordered end members: value inside [top, bottom], rising with depth, falling with age, boundary temperatures attained; slab mass-conserving and plate models between the surface temperature and the background adiabat wherever they change the temperature.",
-        note="Gibbs allowance for the 100-term series near the surface; boundary values asserted for min depth 0 / constant max depth only.",
+        note="Gibbs allowance for the 100-term series near the surface; boundary values asserted for min depth 0 / constant max depth only; 35% of the oceanic plates have a point-wise thickness (envelope, depth and age order only).",
         design="DESIGN.md section 4, C20"),
     "C08": dict(
         technique="metamorphic property-based testing (rapidcheck, one process per case): world file and query moved by a generated rigid motion / longitude offset, answers compared with a boundary-robust tolerance",
-        text="Generated worlds (every feature and model type, ridges, dip points, curved trenches, cross section) are rewritten under a rotation about the vertical plus translation (cartesian) or a common longitude offset (spherical; most offsets carry a feature onto +-180, beyond it, or a full turn) and queried at the moved points: temperature, compositions, grains and the tag string must agree to 1e-6/1e-7 relative.",
+        text="Generated worlds (every feature and model type, ridges, dip points, curved trenches, cross section) are rewritten under a rotation about the vertical plus translation (cartesian) or a common longitude offset (spherical; most offsets carry a feature onto +-180, beyond it, or a full turn) and queried at the moved points: temperature, compositions, grains and the tag string must agree to 1e-6/1e-7 relative. The 2D interface is compared too (the cross section moves with the world). A second sub-check aims at ridge-dependent cooling models: oblique ridges with one spreading velocity per point, offsets that put the ridge in another 360-degree copy than the query's natural longitude.",
         note="Plume 'rotation angles' are turned with the world; velocities excluded; cases where the original world's own answer changes within 2 cm are skipped and counted.",
         design="DESIGN.md section 4, C08"),
     "C09": dict(
@@ -89,18 +89,18 @@ META = {
         note="Schema reading is done by engine/schema_walk.h against the schema emitted at run time; UBSan is off inside the vendored rapidjson (see engine/ubsan_ignorelist.txt). Fuzzing samples the input space; hangs are detected up to 300 s.",
         design="DESIGN.md section 4, C12"),
     "C13": dict(
-        technique="property-based testing (rapidcheck, one process per case) at targeted degenerate locations + structure-aware libFuzzer target under ASan/UBSan with a finiteness oracle",
-        text="Generated worlds inside the physical parameter domain, queried at polygon vertices/edges, trench coordinates and chords, dip point, slab tip region, below the trench, poles, +-180, planet centre (also |p|=1e-300), far away, model bottom, feature depth limits, with every property kind: the query returns only finite numbers or throws std::exception; a crash or hang of the child process is a failure.",
+        technique="property-based testing (rapidcheck, one process per case) at targeted degenerate locations, repeated with the ASan+UBSan build of the same executable (memory errors / undefined behaviour invisible in release) + structure-aware libFuzzer target under ASan/UBSan with a finiteness oracle",
+        text="Generated worlds inside the physical parameter domain, queried at polygon vertices/edges, trench coordinates and chords, dip point, slab tip region, below the trench, poles, +-180, planet centre (also |p|=1e-300), far away, model bottom, feature depth limits, with every property kind: the query returns only finite numbers or throws std::exception; a crash or hang of the child process is a failure. Special configurations: points exactly on a ridge at depth 0 (age zero), on corners where a point-wise max depth pinches out to the min depth, at depth 0 / max depth.",
         note="Degenerate *parameters* (zero specific heat etc.) are C12's domain and not asserted finite here.",
         design="DESIGN.md section 4, C13"),
     "C15": dict(
         technique="stateful property-based testing (rapidcheck, one process per case): twin-world differential over query histories, engine-state comparison for seeds, invariants on every returned grain",
-        text="Worlds with random grains / random composition models in every feature type; seeds through the constructor and through 'random number seed'. Twin worlds queried alike agree bitwise at every step, worlds with different seeds start from different engine states, file seed equals constructor seed; every rotation matrix is orthonormal with determinant +1 (1e-12), normalised sizes sum to 1, fixed sizes come back verbatim, random compositions stay inside the bounds of their own entry.",
+        text="Worlds with random grains / random composition models in every feature type; seeds through the constructor and through 'random number seed' (0, 1, 2, INT_MAX-k and arbitrary values). Twin worlds queried alike agree bitwise at every step, worlds with different seeds start from different engine states, file seed equals constructor seed; every rotation matrix is orthonormal with determinant +1 (1e-12), normalised sizes sum to 1, fixed sizes come back verbatim, random compositions stay inside the bounds of their own entry.",
         note="'a draw happened' is observed through World::get_random_number_engine().",
         design="DESIGN.md section 4, C15"),
     "C16": dict(
         technique="property-based testing (rapidcheck): differential C API / C++ wrapper vs native World with identical call sequences; file-system observation of create_world's output directory",
-        text="Generated worlds, points, property lists and create_world arguments (flag null/false/true, output_dir null/empty/relative with trailing slash, seeds up to 2^33): every C function and C++ wrapper method must return the native bits; the four declaration files must appear exactly in the requested directory; the seed must reach the random engine.",
+        text="Generated worlds, points, property lists and create_world arguments (flag null/false/true, output_dir null/empty/relative with trailing slash, seeds up to 2^33): every C function and C++ wrapper method must return the native bits; the four declaration files must appear exactly in the requested directory; the seed must reach the random engine. 1-4 property lists of different lengths are used one after the other on the same handle, with 256 canary slots behind the announced output size; every case runs in a fresh process; a sanitizer stage repeats the cases with the ASan+UBSan build.",
         note="The reference world receives exactly the calls the wrapped world receives.",
         design="DESIGN.md section 4, C16"),
     "C19": dict(
